@@ -18,6 +18,9 @@ import unicodedata
 from . import AnalysisError
 
 MAXREPEAT = C.MAXREPEAT
+POSSESSIVE = getattr(C, 'POSSESSIVE_REPEAT', None)
+ATOMIC = getattr(C, 'ATOMIC_GROUP', None)
+REPEATS = tuple(x for x in (C.MAX_REPEAT, C.MIN_REPEAT, POSSESSIVE) if x is not None)
 
 # extra case equivalences honoured by sre under IGNORECASE|UNICODE
 _EXTRA_CASE = {
@@ -182,7 +185,11 @@ class Lang:
             for alt in av[1]:
                 out |= self._sub(alt, s, pos, endpos)
             return out
-        if op in (C.MAX_REPEAT, C.MIN_REPEAT, getattr(C, 'POSSESSIVE_REPEAT', None)):
+        if (op is POSSESSIVE or op is ATOMIC) and op is not None:
+            # committed constructs keep only the highest-priority way to match
+            e = next(self._ordered_item(item, s, pos, endpos), None)
+            return set() if e is None else {e}
+        if op in (C.MAX_REPEAT, C.MIN_REPEAT):
             lo, hi, sub = av
             cur = {pos}
             out = set()
@@ -236,9 +243,57 @@ class Lang:
             if op is C.ASSERT_NOT:
                 found = not found
             return {pos} if found else set()
-        if op is getattr(C, 'ATOMIC_GROUP', None):
-            return self._sub(av, s, pos, endpos)
         raise AnalysisError(f"regex construct {op} not modelled")
+
+    # -- priority-ordered (backtracking) semantics, needed only to know WHICH
+    # match a possessive quantifier / atomic group commits to ------------
+    def _ordered(self, items, idx, s, pos, endpos):
+        if idx == len(items):
+            yield pos
+            return
+        for e in self._ordered_item(items[idx], s, pos, endpos):
+            yield from self._ordered(items, idx + 1, s, e, endpos)
+
+    def _ordered_item(self, item, s, pos, endpos):
+        op, av = item
+        if op is C.SUBPATTERN:
+            if av[1] or av[2]:
+                raise AnalysisError("inline flag groups not modelled")
+            yield from self._ordered(list(av[3]), 0, s, pos, endpos)
+        elif op is C.BRANCH:
+            for alt in av[1]:
+                yield from self._ordered(list(alt), 0, s, pos, endpos)
+        elif op in REPEATS:
+            lo, hi, sub = av
+            body = list(sub)
+
+            def rep(n, p, depth=0):
+                if depth > 2000:
+                    raise AnalysisError("repeat too deep for the ordered matcher")
+                more = hi == MAXREPEAT or n < hi
+                if op is C.MIN_REPEAT and n >= lo:
+                    yield p
+                if more:
+                    for e in self._ordered(body, 0, s, p, endpos):
+                        if e == p and n >= lo:
+                            continue        # an empty iteration adds nothing
+                        yield from rep(n + 1, e, depth + 1)
+                if op is not C.MIN_REPEAT and n >= lo:
+                    yield p
+            if op is POSSESSIVE:
+                e = next(rep(0, pos), None)
+                if e is not None:
+                    yield e
+            else:
+                yield from rep(0, pos)
+        elif op is ATOMIC and op is not None:
+            e = next(self._ordered(list(av), 0, s, pos, endpos), None)
+            if e is not None:
+                yield e
+        else:
+            # single characters and zero-width tests have one outcome
+            for e in sorted(self._item(item, s, pos, endpos)):
+                yield e
 
 
 # ----------------------------------------------------------------------
@@ -286,7 +341,7 @@ def show(sub, limit=120):
             return '(' + seq(av[3]) + ')'
         if op is C.BRANCH:
             return '|'.join(seq(a) for a in av[1])
-        if op in (C.MAX_REPEAT, C.MIN_REPEAT):
+        if op in REPEATS:
             lo, hi, sub2 = av
             body = seq(sub2)
             if len(sub2) != 1 or sub2[0][0] is C.BRANCH:
@@ -303,7 +358,7 @@ def show(sub, limit=120):
                 q = f"{{{lo}}}"
             else:
                 q = f"{{{lo},{hi}}}"
-            return body + q + ('?' if op is C.MIN_REPEAT else '')
+            return body + q + ('?' if op is C.MIN_REPEAT else '+' if op is POSSESSIVE else '')
         if op is C.AT:
             return {C.AT_BEGINNING: '^', C.AT_END: '$', C.AT_BOUNDARY: '\\b',
                     C.AT_NON_BOUNDARY: '\\B', C.AT_BEGINNING_STRING: '\\A',
@@ -354,7 +409,7 @@ def _minmax(sub):
         elif op is C.BRANCH:
             mm = [_minmax(x) for x in av[1]]
             a, b = min(m[0] for m in mm), max(m[1] for m in mm)
-        elif op in (C.MAX_REPEAT, C.MIN_REPEAT):
+        elif op in REPEATS:
             l2, h2, s2 = av
             a, b = _minmax(s2)
             a = a * l2
@@ -390,7 +445,7 @@ def _digit_only(sub):
         elif op is C.BRANCH:
             if not all(_digit_only(x) for x in av[1]):
                 return False
-        elif op in (C.MAX_REPEAT, C.MIN_REPEAT):
+        elif op in REPEATS:
             if not _digit_only(av[2]):
                 return False
         elif op in (C.AT, C.ASSERT, C.ASSERT_NOT):
@@ -425,7 +480,7 @@ def groups(pattern, flags=0):
             elif op is C.BRANCH:
                 for alt in av[1]:
                     walk(alt, True, chain)
-            elif op in (C.MAX_REPEAT, C.MIN_REPEAT):
+            elif op in REPEATS:
                 lo, hi, s2 = av
                 walk(s2, optional or lo == 0, chain + [(lo, hi)])
             elif op in (C.ASSERT, C.ASSERT_NOT):
@@ -463,7 +518,7 @@ def literal_alternatives(sub):
                     else:
                         return None
                 outs = [o + c for o in outs for c in chars]
-            elif op in (C.MAX_REPEAT, C.MIN_REPEAT):
+            elif op in REPEATS:
                 lo, hi, s2 = av
                 if hi == MAXREPEAT or hi > 3:
                     return None
@@ -526,11 +581,14 @@ class Automaton:
         self.follow = []        # position -> {position: multiplicity}
         self._class_cache = {}
         self._loop_stack = []
+        self._poss = []         # possessive single-character repeats: (chain, lo, unbounded, chars)
+        self.approx = []        # constructs whose language is over-approximated
         nullable, first, last = self._build(self.tree, True)
         self.nullable = nullable
         self.first = first
         self.last = last
         self.n = len(self.pos_chars)
+        self._finish_possessive()
 
     # -- construction ---------------------------------------------------
     def _charset(self, op, av):
@@ -628,7 +686,7 @@ class Automaton:
             return all(self._epsable(i) for i in av[3])
         if op is C.BRANCH:
             return any(all(self._epsable(i) for i in a) for a in av[1])
-        if op in (C.MAX_REPEAT, C.MIN_REPEAT):
+        if op in REPEATS:
             return av[0] == 0 or all(self._epsable(i) for i in av[2])
         return False
 
@@ -649,9 +707,15 @@ class Automaton:
                 first |= f2
                 last |= l2
             return nullable, first, last
-        if op in (C.MAX_REPEAT, C.MIN_REPEAT):
+        if op in REPEATS:
             lo, hi, s2 = av
+            if op is POSSESSIVE:
+                return self._build_possessive(lo, hi, s2, show([item]))
             return self._build_repeat(lo, hi, s2, show([item]))
+        if op is ATOMIC and op is not None:
+            # language over-approximated by the plain group
+            self.approx.append('(?>' + show(av) + ')')
+            return self._build(av, tail)
         if op is C.AT:
             if tail and self.peeks and av in (C.AT_END, C.AT_END_STRING):
                 p = self._newpos(frozenset([self.aidx[EOS]]), '$', peek=True)
@@ -670,6 +734,63 @@ class Automaton:
         if op is C.GROUPREF or op is getattr(C, 'GROUPREF_EXISTS', None):
             raise AnalysisError("back-references are not modelled")
         raise AnalysisError(f"regex construct {op} not modelled")
+
+    def _build_possessive(self, lo, hi, s2, text):
+        """X{lo,hi}+ .  With a single-character body the language is exact:
+        the repeat may only be left (or skipped) on a character that X does
+        not accept, unless hi iterations were taken.  That is recorded as
+        per-edge character exclusions, resolved in _finish_possessive once all
+        follow sets are complete.  Any other body: plain greedy repeat
+        (over-approximation of the language), noted in self.approx."""
+        body = list(s2)
+        while len(body) == 1 and body[0][0] is C.SUBPATTERN and not body[0][1][1] and not body[0][1][2]:
+            body = list(body[0][1][3])
+        before = len(self.pos_chars)
+        res = self._build_repeat(lo, hi, s2, text)
+        made = list(range(before, len(self.pos_chars)))
+        if len(body) != 1 or body[0][0] not in SINGLE:
+            self.approx.append(text)
+            return res
+        # order of the copies in the sequence: mandatory ones as created, the
+        # optional ones were created innermost-last ... _build_repeat creates
+        # E(E(E)?)? from the outside in, so creation order IS sequence order
+        # for the mandatory part and REVERSED for the optional part
+        chain = made[:lo] + list(reversed(made[lo:])) if hi != MAXREPEAT else made
+        self._poss.append((chain, lo, hi == MAXREPEAT, self.pos_chars[made[0]]))
+        return res
+
+    def _finish_possessive(self):
+        self.edge_excl = {}
+        self.first_excl = {}
+        self.poss_entry = {chain[0] for chain, lo, _u, _k in self._poss if lo == 0}
+        for chain, lo, unbounded, K in self._poss:
+            nxt = {}
+            for a, b in zip(chain, chain[1:]):
+                nxt[a] = b
+            if unbounded:
+                nxt[chain[-1]] = chain[-1]
+            for c, b in nxt.items():
+                if self.follow[c].get(b, 0) > 1:
+                    # the other ways from c to b leave the repeat and come back
+                    # on a character of X: a possessive repeat continues instead
+                    self.follow[c][b] = 1
+                for y in self.follow[c]:
+                    if y != b:
+                        self.edge_excl[(c, y)] = self.edge_excl.get((c, y), frozenset()) | K
+            if lo == 0:
+                c1 = chain[0]
+                exits = {y for y in self.follow[c1] if y != nxt.get(c1)}
+                inside = set(chain)
+                for q in range(len(self.follow)):
+                    if q in inside or c1 not in self.follow[q]:
+                        continue
+                    for y in self.follow[q]:
+                        if y in exits and y != c1:
+                            self.edge_excl[(q, y)] = self.edge_excl.get((q, y), frozenset()) | K
+                if c1 in self.first:
+                    for y in self.first:
+                        if y in exits and y != c1:
+                            self.first_excl[y] = self.first_excl.get(y, frozenset()) | K
 
     def _build_repeat(self, lo, hi, s2, text):
         if hi != MAXREPEAT and hi > self.UNROLL_CAP:
@@ -708,6 +829,11 @@ class Automaton:
         return acc
 
     # -- simulation -----------------------------------------------------
+    def echars(self, p, q):
+        """characters on which the edge p -> q can be taken"""
+        ex = self.edge_excl.get((p, q)) if self.edge_excl else None
+        return self.pos_chars[q] - ex if ex else self.pos_chars[q]
+
     def step(self, states, ch):
         """states: set of positions (or 'START'); returns next set."""
         ci = self.aidx.get(ch)
@@ -718,6 +844,10 @@ class Automaton:
             succ = self.first if p == 'START' else self.follow[p]
             for q in succ:
                 if ci in self.pos_chars[q]:
+                    if self.edge_excl or self.first_excl:
+                        ex = self.first_excl.get(q) if p == 'START' else self.edge_excl.get((p, q))
+                        if ex and ci in ex:
+                            continue
                     out.add(q)
         return out
 
@@ -849,6 +979,12 @@ class Automaton:
             for p in comp:
                 for q, m in self.follow[p].items():
                     if m >= 2 and q in comp:
+                        if q in self.poss_entry:
+                            # one of the routes into an optional possessive repeat may be
+                            # "skip it, go round an enclosing loop, enter it", which a
+                            # possessive repeat never does: not counted
+                            self.approx.append(f"multiplicity of the edge into {self.pos_label[q]}*+")
+                            continue
                         word = self._cycle_word(q, p, comp)
                         if word is None:
                             continue
@@ -902,9 +1038,9 @@ class Automaton:
             fa = [x for x in self.follow[a] if x in comp]
             fb = [x for x in self.follow[b] if x in comp]
             for x in fa:
-                cx = self.pos_chars[x]
+                cx = self.echars(a, x)
                 for y in fb:
-                    inter = cx & self.pos_chars[y]
+                    inter = cx & self.echars(b, y)
                     if inter:
                         out.append(((x, y), inter))
             succ_cache[key] = out
@@ -1113,17 +1249,17 @@ class Automaton:
             for x in self.follow[a]:
                 if x not in cp:
                     continue
-                cx = self.pos_chars[x]
+                cx = self.echars(a, x)
                 for z in self.follow[b]:
                     if z not in cq:
                         continue
-                    cxz = cx & self.pos_chars[z]
+                    cxz = cx & self.echars(b, z)
                     if not cxz:
                         continue
                     for y in self.follow[m]:
                         if not (y == q or q in reach[y]):
                             continue
-                        inter = cxz & self.pos_chars[y]
+                        inter = cxz & self.echars(m, y)
                         if not inter:
                             continue
                         nd = (x, y, z)
@@ -1299,6 +1435,20 @@ def included(f_pattern, f_flags, r_pattern, r_flags, limit=200000, ascii_only=Fa
             w.append(last)
         return ''.join(w)
 
+    if AF.edge_excl or AF.first_excl or AF.approx:
+        raise AnalysisError("inclusion test: possessive / atomic constructs on the left-hand side are not modelled")
+    verify = None
+    if AR.edge_excl or AR.first_excl:
+        # exits of possessive repeats were cut per edge; an edge shared with an
+        # alternative route can be cut wrongly, so a counterexample is
+        # confirmed by exact membership before it is reported
+        LR = Lang(r_pattern, r_flags)
+
+        def verify(w):
+            if LR.fullmatch(w):
+                raise AnalysisError(f"inclusion test: possessive quantifiers in the pattern; candidate {w!r} "
+                                    f"is matched after all - undecided")
+            return w
     if AF.nullable and not AR.nullable:
         return ''
     while dq:
@@ -1316,13 +1466,13 @@ def included(f_pattern, f_flags, r_pattern, r_flags, limit=200000, ascii_only=Fa
                 groups.setdefault(nxt, ch)
             for nxt, ch in groups.items():
                 if not nxt:
-                    return word(st, ch)
+                    return verify(word(st, ch)) if verify else word(st, ch)
                 ns = (qf, nxt)
                 if ns in prev:
                     continue
                 prev[ns] = (st, ch)
                 if qf in AF.last and not AR.accepting(nxt):
-                    return word(ns)
+                    return verify(word(ns)) if verify else word(ns)
                 dq.append(ns)
                 if len(prev) > limit:
                     raise AnalysisError("inclusion test exceeded its state budget")
